@@ -252,4 +252,13 @@ def c12(tier, seed):
     # longer random behaviours (one history per (state, last operation) is what the dumps above replay; simulation adds other
     # paths to the same states and deeper ones)
     simulate(rep, ms[1], clauses_of("C12"), 1000 if tier == "quick" else 10000, 8 if tier == "quick" else 10, seed)
+    # the same filter reached through a portfolio space declared in whole numbers of contracts (EnvFull.tla, Measure = lots,
+    # Fractional = FALSE): the traded quantity is the truncated IMBALANCE (target - held), whatever the target's own fraction
+    from . import envfull_check as ef
+    grid = ef.G[:5]
+    ev = ef.bars(grid, {"S1": [8, 8, 8, 8, 8], "F4": [8, 8, 8, 8, 8]}, 0)
+    em = ef.full_model("wholelot-lots-space", ["S1", "F4"], ["S1", "F4"], grid, ev,
+                       [{"S1": F(3)}, {"S1": F(3, 2)}, {"S1": F(1, 2), "F4": F(-5, 2)}, {}], lats=(0,), delays=(0,), fees="free",
+                       maxsteps=4, measure="lots", fractional=False, invariants=["LedgerReplay"])
+    ef.run_models(rep, [em], {"pos", "track_trades"})
     return rep.finish()
